@@ -355,6 +355,12 @@ func (l Lock) verifyBuilderRegistrations() error {
 			return err
 		}
 
+		// The signature below only covers the fee recipient of the definition; the fee recipient stored in the
+		// registration message itself must be that same address (its hash pads it, so extra bytes would go unnoticed).
+		if !bytes.Equal(val.BuilderRegistration.Message.FeeRecipient, regMsg.FeeRecipient[:]) {
+			return errors.New("builder registration fee recipient mismatch", z.Int("i", i))
+		}
+
 		sigRoot, err := registration.GetMessageSigningRoot(regMsg, eth2p0.Version(l.ForkVersion))
 		if err != nil {
 			return err
